@@ -156,6 +156,9 @@ class Formatter(FormatterInterface):
     def _(self, oper: L.Not | L.Neg) -> str:
         """Format a unary operation."""
         arg = self(oper.arg)
+        if isinstance(oper, L.Not):
+            # Python spells logical negation 'not'; it binds looser than comparisons
+            return f"(not ({arg}))"
         if oper.arg.precedence >= oper.precedence:
             return f"{oper.op}({arg})"
         return f"{oper.op}{arg}"
@@ -250,6 +253,8 @@ class Formatter(FormatterInterface):
             "acosh": "arccosh",
             "asinh": "arcsinh",
             "atanh": "arctanh",
+            "min_value": "minimum",
+            "max_value": "maximum",
         }
         function = function_map.get(f.function, f.function)
         args = [self(arg) for arg in f.args]
